@@ -69,6 +69,22 @@ def directed_units(rng, ws, n_each):
     src = ('empty !baba(int c) { if (c > 5) { preempt { write("p"); } } write("b"); }\n'
            'empty @is_you(int a, int b) { try { write("<"); !baba(a); !truth_is_defeat(b > 0); write(">"); } undo { write("U"); } write("."); }\n')
     units.append((src, [Cfg((str(a), str(b)), w, 100, False) for a in (0, 9) for b in (0, 1) for w in ws]))
+    # the only preempt of the defeat function sits in every syntactic position
+    bodies = {
+        'then': 'if (c > 5) { preempt { write("p"); } }',
+        'else': 'if (c > 5) { write("-"); } else { preempt { write("p"); } }',
+        'elseif': 'if (c > 7) { write("-"); } else if (c > 5) { preempt { write("p"); } }',
+        'loop': 'for (int i = 0; i < c; i += 1) { preempt { write("p"); } }',
+        'while': 'int i = c; while (i > 8) { i -= 1; preempt { write("p"); } }',
+        'nested': '{ { if (c > 99) { { preempt { write("p"); } } } } }',
+        'dead': 'if (false) { preempt { write("p"); } }',
+        'tryless': 'preempt { if (c > 5) { write("p"); } }',
+    }
+    for name, body in bodies.items():
+        for handler in ('undo', 'stop'):
+            src = ('empty !baba(int c) { %s write("b"); }\n' % body +
+                   'empty @is_you(int a, int b) { try { write("<"); !baba(a); !truth_is_defeat(b > 0); write(">"); } %s { write("H"); } write("."); }\n' % handler)
+            units.append((src, [Cfg((str(a), str(b)), w, 100, False) for a in (0, 6, 9) for b in (0, 1) for w in ws]))
     return units
 
 
